@@ -538,6 +538,9 @@ func Run(f func() error) (res string) {
 
 type runner struct {
 	mode    string // observation modes of the driver
+	raceAll    bool   // race mode: every chunk (thorough) instead of the first one
+	raceReport string // first race detector report
+	raced      int    // packages raced without a report
 	work    string // scratch dir
 	govalid string // generator binary
 	repo    string
@@ -621,7 +624,7 @@ func (r *runner) writeDriver(sc *Scenario, results []*DeclResult, mode string) {
 	var sb strings.Builder
 	sb.WriteString("package " + pkg + "\n\nimport (\n\t\"context\"\n\t\"errors\"\n\t\"fmt\"\n\t\"io\"\n\t\"math\"\n\t\"strconv\"\n\t\"strings\"\n\t\"testing\"\n\n\t\"github.com/sivchari/govalid\"\n\n\t\"scen/rt\"\n)\n\n")
 	sb.WriteString("var _ govalid.Validator\n")
-	sb.WriteString("var _ = math.Pi\nvar _ = strconv.Itoa\nvar _ = errors.New\nvar _ = context.Background\nvar _ = strings.Join\nvar _ = testing.AllocsPerRun\nvar _ = fmt.Sprint\nvar _ = rt.Repr\n\n")
+	sb.WriteString("var _ = math.Pi\nvar _ = strconv.Itoa\nvar _ = errors.New\nvar _ = context.Background\nvar _ = strings.Join\nvar _ sync.Mutex\nvar _ = testing.AllocsPerRun\nvar _ = fmt.Sprint\nvar _ = rt.Repr\n\n")
 	if has("iface") {
 		sb.WriteString("// interface assertions (C08)\nvar (\n")
 		for _, dr := range results {
@@ -706,7 +709,33 @@ func (r *runner) writeDriver(sc *Scenario, results []*DeclResult, mode string) {
 		}
 		sb.WriteString("}\n\n")
 	}
-	_ = os.WriteFile(filepath.Join(r.mod(), pkg, "zz_run.go"), []byte(sb.String()), 0o644)
+	if has("race") {
+		// C16: the same values shared by G goroutines (and a private copy per goroutine) validated concurrently
+		sb.WriteString("type raceV interface {\n\tValidate() error\n\tValidateContext(context.Context) error\n}\n\n")
+		sb.WriteString("func raceValues() []raceV {\n\tvar out []raceV\n")
+		for _, dr := range results {
+			if dr.File == "" {
+				continue
+			}
+			for i, v := range sc.Values[dr.Decl] {
+				if i >= 6 {
+					break
+				}
+				var as []string
+				v.assignments("v", &as)
+				sb.WriteString("\t{\n\t\tv := &" + dr.Decl + "{}\n")
+				for _, a := range as {
+					sb.WriteString("\t\t" + a + "\n")
+				}
+				sb.WriteString("\t\tout = append(out, v)\n\t}\n")
+			}
+		}
+		sb.WriteString("\treturn out\n}\n\n")
+		sb.WriteString("func Race(goroutines, iterations int) {\n\tshared := raceValues()\n\tvar wg sync.WaitGroup\n\tfor g := 0; g < goroutines; g++ {\n\t\twg.Add(1)\n\t\tgo func(g int) {\n\t\t\tdefer wg.Done()\n\t\t\tdefer func() { _ = recover() }()\n\t\t\town := raceValues()\n\t\t\tfor it := 0; it < iterations; it++ {\n\t\t\t\tfor _, v := range shared {\n\t\t\t\t\t_ = v.Validate()\n\t\t\t\t\t_ = v.ValidateContext(context.Background())\n\t\t\t\t}\n\t\t\t\tfor _, v := range own {\n\t\t\t\t\t_ = v.Validate()\n\t\t\t\t}\n\t\t\t}\n\t\t}(g)\n\t}\n\twg.Wait()\n}\n")
+	} else {
+		sb.WriteString("func Race(goroutines, iterations int) {}\n")
+	}
+	_ = os.WriteFile(filepath.Join(r.mod(), pkg, "zz_run.go"), []byte(strings.Replace(sb.String(), "\t\"strings\"\n", "\t\"strings\"\n\t\"sync\"\n", 1)), 0o644)
 }
 
 // runAll: generate (parallel), build each package (parallel), one driver binary, observe.
@@ -810,8 +839,10 @@ func (r *runner) runAll(scs []*Scenario) []*DeclResult {
 		size += n
 	}
 	type chunkOut struct {
-		out string
-		err string
+		out   string
+		err   string
+		race  string // race detector report (or failure) of the concurrent run
+		raced int    // packages validated concurrently without a report
 	}
 	outs := make([]chunkOut, len(chunks))
 	for ci, chunk := range chunks {
@@ -825,7 +856,11 @@ func (r *runner) runAll(scs []*Scenario) []*DeclResult {
 			for _, id := range chunk {
 				fmt.Fprintf(&mb, "\tp%s \"scen/p%s\"\n", id, id)
 			}
-			mb.WriteString(")\n\nfunc main() {\n\tw := bufio.NewWriterSize(os.Stdout, 1<<20)\n\tdefer w.Flush()\n")
+			mb.WriteString(")\n\nfunc main() {\n\tif len(os.Args) > 1 && os.Args[1] == \"race\" {\n\t\tfor _, g := range []int{2, 8, 64} {\n")
+			for _, id := range chunk {
+				fmt.Fprintf(&mb, "\t\t\tp%s.Race(g, 40)\n", id)
+			}
+			mb.WriteString("\t\t}\n\t\treturn\n\t}\n\tw := bufio.NewWriterSize(os.Stdout, 1<<20)\n\tdefer w.Flush()\n")
 			for _, id := range chunk {
 				fmt.Fprintf(&mb, "\tp%s.Run(w)\n", id)
 			}
@@ -847,10 +882,33 @@ func (r *runner) runAll(scs []*Scenario) []*DeclResult {
 			}
 			outs[ci].out = string(o)
 			_ = os.Remove(filepath.Join(r.work, name))
+			if strings.Contains(","+r.mode+",", ",race,") && (r.raceAll || ci == 0) {
+				rb := filepath.Join(r.work, name+"-race")
+				if bo, code := r.cmd(r.mod(), "go", "build", "-race", "-o", rb, "./cmd/"+name); code != 0 {
+					outs[ci].err = "race driver build failed: " + tail(bo, 3000)
+					return
+				}
+				rc := exec.Command(rb, "race")
+				rc.Env = goEnv
+				ro, rerr := rc.CombinedOutput()
+				_ = os.Remove(rb)
+				if strings.Contains(string(ro), "DATA RACE") || rerr != nil {
+					outs[ci].race = tail(string(ro), 5000)
+					if outs[ci].race == "" {
+						outs[ci].race = fmt.Sprint(rerr)
+					}
+				} else {
+					outs[ci].raced = len(chunk)
+				}
+			}
 		}(ci, chunk)
 	}
 	wg.Wait()
 	for _, co := range outs {
+		if co.race != "" && r.raceReport == "" {
+			r.raceReport = co.race
+		}
+		r.raced += co.raced
 		if co.err != "" {
 			// the observation side is broken: no verdict may be derived from missing output
 			fmt.Fprintln(os.Stderr, co.err)
@@ -896,9 +954,13 @@ func genMain(args []string) {
 		os.Exit(2)
 	}
 	scs := buildFamily(family, tier, seed)
+	r.raceAll = tier == "thorough"
 	res := r.runAll(scs)
 	enc := json.NewEncoder(out)
 	for _, dr := range res {
 		_ = enc.Encode(dr)
+	}
+	if strings.Contains(","+r.mode+",", ",race,") {
+		_ = enc.Encode(map[string]any{"race_summary": map[string]any{"packages": r.raced, "report": r.raceReport, "goroutines": []int{2, 8, 64}, "iterations": 40}})
 	}
 }
